@@ -311,12 +311,47 @@ impl From<bool> for LiteralKind {
     }
 }
 
+/// Appends the code units of a string value as the characters of a string literal delimited by
+/// `quote` (or of a template, for a backtick): the delimiter, backslashes, line terminators,
+/// control characters and unpaired surrogates are written as escape sequences, so that the
+/// printed literal denotes the same string value.
+pub(crate) fn push_escaped(buf: &mut String, units: &[u16], quote: char) {
+    use std::fmt::Write;
+
+    let mut chars = char::decode_utf16(units.iter().copied()).peekable();
+    while let Some(unit) = chars.next() {
+        match unit {
+            Ok(c) if c == quote || c == '\\' => {
+                buf.push('\\');
+                buf.push(c);
+            }
+            Ok('$') if quote == '`' && chars.peek() == Some(&Ok('{')) => buf.push_str("\\$"),
+            Ok('\n') => buf.push_str("\\n"),
+            Ok('\r') => buf.push_str("\\r"),
+            Ok('\t') => buf.push_str("\\t"),
+            Ok(c) if c < ' ' || c == '\u{7f}' => {
+                let _ = write!(buf, "\\x{:02X}", c as u32);
+            }
+            Ok(c @ ('\u{2028}' | '\u{2029}')) => {
+                let _ = write!(buf, "\\u{:04X}", c as u32);
+            }
+            Ok(c) => buf.push(c),
+            Err(e) => {
+                let _ = write!(buf, "\\u{:04X}", e.unpaired_surrogate());
+            }
+        }
+    }
+}
+
 impl ToInternedString for LiteralKind {
     #[inline]
     fn to_interned_string(&self, interner: &Interner) -> String {
         match *self {
             Self::String(st) => {
-                format!("\"{}\"", interner.resolve_expect(st))
+                let mut buf = String::from('"');
+                push_escaped(&mut buf, interner.resolve_expect(st).utf16(), '"');
+                buf.push('"');
+                buf
             }
             Self::Num(num) => num.to_string(),
             Self::Int(num) => num.to_string(),
